@@ -137,3 +137,54 @@ Theorem edge_swap u w n m f :
   iterD K u n (iterD K w m f) 0%nat 0%nat = iterD K w m (iterD K u n f) 0%nat 0%nat.
 Proof. apply (iterD_comm K RT). Qed.
 End SharedEdges.
+
+(* ---- C11: Jacobian nets.  Formal partial derivatives via dual numbers: one de Casteljau round at the
+   dual weight (w + eps w') acts on (values f, eps-parts g) as  (D w f, D w g + D w' f).
+   For d/ds of B(1-s-t, s, t): w' = (-1, 1, 0), and D w' f (j,k) = f (j+1) k - f j k;
+   for d/dt: w' = (-1, 0, 1), D w' f (j,k) = f j (k+1) - f j k. *)
+Section Jacobian.
+Context {T : Type} (K : Ops T) (RT : ring_of K).
+Add Ring TRJ : RT.
+Notation "0" := (o0 K). Notation "1" := (o1 K).
+Infix "+" := (oadd K). Infix "*" := (omul K). Infix "-" := (osub K).
+
+Fixpoint ofnat (n : nat) : T := match n with O => 0 | S k => ofnat k + 1 end.
+Definition fadd (f g : F (T:=T)) : F := fun j k => f j k + g j k.
+(* eps-part after n dual rounds, starting from (f, g) *)
+Fixpoint epsD (w w' : W3 (T:=T)) (n : nat) (f g : F (T:=T)) : F :=
+  match n with
+  | O => g
+  | S n' => epsD w w' n' (D K w f) (fadd (D K w g) (D K w' f))
+  end.
+
+Lemma iterD_fadd w n : forall f g, fext (iterD K w n (fadd f g)) (fadd (iterD K w n f) (iterD K w n g)).
+Proof.
+  induction n; intros f g; cbn [iterD]; [intros j k; reflexivity|].
+  intros j k. rewrite <- (IHn (D K w f) (D K w g) j k). apply iterD_fext.
+  intros j' k'. unfold D, fadd. destruct w as [[w1 w2] w3]. ring.
+Qed.
+Lemma epsD_fext w w' n : forall f f' g g', fext f f' -> fext g g' -> fext (epsD w w' n f g) (epsD w w' n f' g').
+Proof.
+  induction n; intros f f' g g' Hf Hg; cbn [epsD]; [exact Hg|].
+  apply IHn; [apply (D_fext K); exact Hf|].
+  intros j k. unfold fadd. rewrite (D_fext K w g g' Hg j k), (D_fext K w' f f' Hf j k). reflexivity.
+Qed.
+
+(* the derivative of the degree-n evaluation is n times the degree-(n-1) evaluation of the difference net D w' f *)
+Theorem epsD_is_derivative w w' : forall n f g,
+  fext (epsD w w' n f g)
+       (fadd (iterD K w n g) (fun j k => ofnat n * iterD K w (n - 1) (D K w' f) j k)).
+Proof.
+  induction n as [|n IH]; intros f g j k.
+  - cbn [epsD iterD ofnat]. unfold fadd. ring.
+  - cbn [epsD]. rewrite IH. unfold fadd at 1.
+    rewrite (iterD_fadd w n (D K w g) (D K w' f) j k). unfold fadd.
+    cbn [iterD ofnat]. replace (S n - 1)%nat with n by (destruct n; reflexivity).
+    destruct n as [|n].
+    + cbn [iterD ofnat Nat.sub]. ring.
+    + replace (S n - 1)%nat with n by (cbn; rewrite Nat.sub_0_r; reflexivity).
+      rewrite (iterD_fext K w n _ _ (D_comm K RT w' w f) j k).
+      change (iterD K w n (D K w (D K w' f)) j k) with (iterD K w (S n) (D K w' f) j k).
+      cbn [ofnat]. ring.
+Qed.
+End Jacobian.
